@@ -106,10 +106,25 @@ func (c *c16cfg) body(depth int) {
 	var peersLog, localLog []string
 	failNext := false
 	var peersDelay time.Duration
+	oddHeartbeat := false // the next OPTIONS on a control (registered) connection is answered with READY
 	nodes := map[string]*sysnode{}
 	for _, ip := range []string{"10.0.0.1", "10.0.0.2", "10.0.0.3", "10.0.0.4", "10.0.0.5"} {
 		sn := &sysnode{cl: cl, view: func() *cview { return view }, self: ip, peersLog: &peersLog, localLog: &localLog,
 			peersDelay: func() time.Duration { return peersDelay },
+			optionsReply: func(sc *vnode.ServerConn) interface{} {
+				if !oddHeartbeat {
+					return nil
+				}
+				for _, sn := range nodes {
+					for _, reg := range sn.registered {
+						if reg == sc {
+							oddHeartbeat = false
+							return frame.Ready{}
+						}
+					}
+				}
+				return nil
+			},
 			failPeers: func() bool {
 				if failNext {
 					failNext = false
@@ -323,6 +338,8 @@ func (c *c16cfg) body(depth int) {
 					}
 				}
 			}
+		case "odd-heartbeat-reply":
+			oddHeartbeat = true
 		case "refresh-failure":
 			failNext = true
 			pushTopo("NEW_NODE", "10.0.0.8")
@@ -465,7 +482,7 @@ func (c *c16cfg) build(tier int) func() *vs.Scenario {
 func main() {
 	topo := []string{"add-C", "remove-B", "move-B", "replace-B-by-D", "invalid-peer", "duplicate-row", "query"}
 	status := []string{"down-B", "up-B", "down-unknown", "up-unknown", "remove-B", "replace-B-by-D", "query"}
-	faults := []string{"control-loss", "refresh-failure", "add-C", "remove-B", "down-B", "query"}
+	faults := []string{"control-loss", "refresh-failure", "odd-heartbeat-reply", "add-C", "remove-B", "down-B", "query"}
 	cfgs := []*c16cfg{
 		{name: "topology-histories", events: topo, depth: [2]int{4, 5}, t: [2]int{0, 0}},
 		{name: "status-histories", events: status, depth: [2]int{4, 5}, t: [2]int{0, 0}},
